@@ -79,10 +79,13 @@ Theorem cpp_type_for_range_contains : forall mn mx t,
   cpp_type_for_range mn mx = Some t -> cpp_type_lo t <= mn /\ mx <= cpp_type_hi t.
 Proof. exact Gate.cpp_type_for_range_contains. Qed.
 
-(* Finding F18: "the pass's own assertions never fire" is false of the faithful model. *)
-Theorem assert_never_fires_refuted :
-  exists G e, (exists k w, forall i, G i = leaf_aval k (Some w)) /\ analyze G e = None.
-Proof. exact assert_never_fires_refuted_lem. Qed.
+(* The leaves the front end produces never trip the pass's own consistency assertion
+   (_assert_integer_constraints): fields of a possible width have lo < hi, fields of an impossible
+   width get the unbounded range since fix 90ef553 (before it a zero-width leaf fired the assertion:
+   finding F18, reproduced by this development and then repaired). *)
+Theorem leaf_consistent : forall k w, aval_consistent (leaf_aval k w) = true.
+Proof. exact leaf_consistent_lem. Qed.
+Print Assumptions leaf_consistent.
 
 (* the hypotheses above are satisfiable by a non-trivial instance *)
 Example example_nonvacuous :
